@@ -72,7 +72,7 @@ macro_rules! entc {
 	)*};
 }
 entc! {
-	c07q_entc_u64_1: u64, 1; c07q_entc_u64_4: u64, 4; c07q_entc_u64_5: u64, 5; c07q_entc_u64_9: u64, 9; c07q_entc_u128_17: u128, 17; c07q_entc_u128_11: u128, 11;
+	c07q_entc_u64_1: u64, 1; c07q_entc_u64_4: u64, 4; c07t_entc_u64_5: u64, 5; c07t_entc_u64_9: u64, 9; c07t_entc_u128_17: u128, 17; c07t_entc_u128_11: u128, 11;
 	c07t_entc_u64_2: u64, 2; c07t_entc_u64_6: u64, 6; c07t_entc_u64_7: u64, 7; c07t_entc_u64_8: u64, 8; c07t_entc_u128_5: u128, 5; c07t_entc_u128_9: u128, 9; c07t_entc_u128_13: u128, 13;
 }
 
@@ -158,7 +158,7 @@ pub fn h_bulk_dec<P: Decode + Bits, const L: usize>() {
 		_ => assert!(false, "bulk and element-wise array decode disagree on success"),
 	}
 	kani::cover!(r1.is_ok(), "reach: accepted");
-	kani::cover!(r1.is_err(), "reach: rejected");
+	kani::cover!(r1.is_err(), "info: rejected");
 	core::mem::forget((r1, r2));
 }
 macro_rules! bulk {
